@@ -172,14 +172,14 @@ def pre_one(status: int, style: int, ops: List[int]) -> bool:
     for k in ops:
         if not 0 <= k <= 3:
             return False
-    return in_shard(style)
+    return in_shard(style + 3 * (ops[0] if len(ops) > 0 else 0))
 
 
 @harness(
     pre=pre_one,
     quick=dict(N=5, timeout=120),
     thorough=dict(N=7, timeout=1200),
-    nshards=dict(quick=3, thorough=3),
+    nshards=dict(quick=12, thorough=12),
     reach=["exit_before_registration", "exit_after_registration", "killed_by_signal", "called_process_error",
            "repeated_sigchld"],
     units=["process.Subprocess.set_exit_callback", "process.Subprocess.wait_for_exit",
